@@ -358,6 +358,16 @@ fn case_builtin1<T: Elem>(case: u64, args: &Args, ev: &mut Ev) {
         let k = sprinkle_specials(&mut rng, &mut spec.data);
         ev.add("special_data_samples", k as u64);
     }
+    // signed zeros: -0.0 == +0.0 although the answers may differ in the sign bit. The first knot
+    // becomes +0.0 (default index axis) with the sample -0.0 on it, and the queries below contain
+    // runs of -0.0 / +0.0 - a batch path that treats queries that compare equal as the same query
+    // disagrees with the per-element calls
+    let signed_zero = !spline && !spec.broadcast_lanes && case % 6 == 0;
+    if signed_zero {
+        spec.x = None;
+        spec.data.index_axis_mut(vh::ndarray::Axis(0), 0).fill(T::of(-0.0));
+        ev.add("signed_zero_cases", 1);
+    }
     let x = spec.axis();
     let h = hash_bits(&[&bits_of(&x), &bits_of_arr(&spec.data)], &[T::NAME, &spec.dim_name(), &spec.strat.name()]);
     ev.case(h, true);
@@ -399,6 +409,43 @@ fn case_builtin1<T: Elem>(case: u64, args: &Args, ev: &mut Ev) {
             let qa = Query::broadcast(&ArrayD::from_shape_vec(IxDyn(&reduced), vals).unwrap(), &full, kind);
             c.ev.count("query_layout", "broadcast");
             check1(&mut c, interp, &spec, &qa, &mut rng);
+        }
+        if signed_zero {
+            let zero_run = |rng: &mut Rng, n: usize| -> Vec<T> {
+                let mut neg = rng.chance(0.5);
+                (0..n)
+                    .map(|_| {
+                        if rng.chance(0.2) {
+                            rand_in(rng, x[0], x[x.len() - 1])
+                        } else {
+                            neg = !neg;
+                            T::of(if neg { -0.0 } else { 0.0 })
+                        }
+                    })
+                    .collect()
+            };
+            for (kind, reduced, full) in [
+                (QKind::S1, vec![5usize], vec![5usize]),
+                (QKind::S2, vec![4, 1], vec![4, 3]),
+                (QKind::S2, vec![1, 4], vec![3, 4]),
+                (QKind::S2, vec![3, 4], vec![3, 4]),
+                (QKind::Dyn, vec![4, 1], vec![4, 2]),
+                (QKind::Dyn, vec![2, 3, 1], vec![2, 3, 2]),
+                (QKind::S3, vec![4, 1, 1], vec![4, 2, 2]),
+                (QKind::S3, vec![1, 4, 1], vec![2, 4, 3]),
+            ] {
+                let n: usize = reduced.iter().product();
+                let vals = zero_run(&mut rng, n);
+                let arr = ArrayD::from_shape_vec(IxDyn(&reduced), vals).unwrap();
+                let qa = if reduced == full {
+                    let lay = vh::lay::Layout::random(&mut rng, full.len());
+                    Query::with_layout(&arr, kind, &lay)
+                } else {
+                    Query::broadcast(&arr, &full, kind)
+                };
+                c.ev.add("signed_zero_query_batches", 1);
+                check1(&mut c, interp, &spec, &qa, &mut rng);
+            }
         }
         if !spec.strat.extrapolates() && spec.n_lanes() > 0 {
             check_error_agreement1(&mut c, interp, &x, &mut rng);
